@@ -174,6 +174,12 @@ func c02ChunkPlans(n int) [][]GChunk {
 					rs.Total = -1
 					r := append(append(append([]GChunk(nil), base[:pos]...), rs), base[pos:]...)
 					plans = append(plans, r)
+					// a malformed chunk (announced length != body length) starting below what has been received
+					if base[pos-1].Hi >= 2 {
+						bl := GChunk{Lo: 0, Hi: base[pos-1].Hi, Total: -1, BadLen: true}
+						b2 := append(append(append([]GChunk(nil), base[:pos]...), bl), base[pos:]...)
+						plans = append(plans, b2)
+					}
 					// overlapping range: re-send from the middle of everything received so far
 					if base[pos-1].Hi-0 >= 2 {
 						ov := GChunk{Lo: 1, Hi: base[pos-1].Hi, Total: -1}
@@ -296,8 +302,9 @@ func runC02(c *fw.Ctx) {
 						c.Incomplete("time budget reached in part B")
 						return
 					}
-					up := GOp{Kind: "Upload", Proto: "resumable", Bucket: "b1", Name: "a/b", Data: data, Meta: gcs.ObjMeta{ContentType: "text/plain"}, Chunks: plan, No308: no308 == 1}
-					ops := append(append([]GOp(nil), setup...), up)
+					// (with X-Guploader-No-308 the run also sends one more chunk to the session after it has completed)
+					up := GOp{Kind: "Upload", Proto: "resumable", Bucket: "b1", Name: "a/b", Data: data, Meta: gcs.ObjMeta{ContentType: "text/plain"}, Chunks: plan, No308: no308 == 1, StrayAfter: no308 == 1}
+					ops := append(append([]GOp(nil), setup...), up, GOp{Kind: "Get", Bucket: "b1", Name: "a/b", Form: "json"})
 					if ok, _ := tryGCS(c, "C02", gcsCase{Store: store, Ops: ops}, c02Tag); ok {
 						c.Outcome(fmt.Sprintf("resumable:%d-chunks", len(plan)))
 						if item%97 == 0 {
